@@ -7,6 +7,7 @@
 -/
 import PonyVerif.Lemmas.SaveOrder
 import PonyVerif.Gen.FlushShape
+import PonyVerif.Lemmas.DeleteQueue
 namespace PonyVerif.Props.C16
 open PonyVerif.Model.SaveOrder
 
@@ -573,5 +574,101 @@ example : (applyWrites [[⟨1, true⟩, ⟨3, true⟩], [], [], []] [2, 3]
 example : flush { status := [.created, .other, .markedToDelete], refs := [[⟨1, true⟩], [], []], queue := [some 0, none, some 2],
                   removed := [(2, 1)], added := [(0, 1)] }
     = .ok [.unlink 2 1, .insert 0, .delete 2, .link 0 1] := by rfl
+
+/-! ### the order `Entity._delete_` produces (Model/DeleteQueue.lean over property C15's Model/Cascade.lean) -/
+
+section DeleteOrder
+open PonyVerif.Model.Cascade PonyVerif.Model.DeleteQueue
+
+/-- The queue-instrumented `_delete_` IS the `_delete_` of Model/Cascade.lean (which property C15 ties to the real code)
+    once the order is forgotten: same store, same error, for every schema, class table, store, fuel and call stack. -/
+theorem C16_delete_queue_refines_cascade (sch : Schema) (ct : ClassTable) (guard : Bool) (fuel : Nat) (P : List ObjId)
+    (o : ObjId) (q : Q) : er (deleteQ sch ct guard fuel P o q) = delete sch ct guard fuel P o q.store :=
+  deleteQ_erase sch ct guard fuel P o q
+
+/-- Every successful `obj._delete_()` appends to the queue exactly the objects it kills - each one once, all of them
+    alive before and dead after, nothing else, and never an object that was already dead: no deletion is queued twice
+    (the defect fixed by fixes/C16-delete-self-member-double-queued.diff cannot come back in the model). -/
+theorem C16_delete_queues_each_object_once (sch : Schema) (ct : ClassTable) (guard : Bool) (fuel : Nat) (P : List ObjId)
+    (o : ObjId) (q q' : Q) (h : deleteQ sch ct guard fuel P o q = .ok q') :
+    ∃ mid, q'.order = q.order ++ mid ∧ mid.Nodup
+      ∧ (∀ x, x ∈ mid ↔ (q.store.alive x = true ∧ q'.store.alive x = false))
+      ∧ (∀ x, q.store.alive x = false → q'.store.alive x = false) := by
+  obtain ⟨mid, e⟩ := deleteQ_ext sch ct guard fuel P o q q' h
+  refine ⟨mid, e.order_eq, e.nodup, ?_, ?_⟩
+  · intro x
+    constructor
+    · intro hx; exact ⟨e.were_alive x hx, by rw [e.alive_eq]; simp [hx]⟩
+    · rintro ⟨h1, h2⟩
+      rw [e.alive_eq, h1] at h2
+      simpa using h2
+  · intro x hx; rw [e.alive_eq, hx]; rfl
+
+/-! the two recorded delete-order findings as theorems about the combined model (death order of `_delete_` ->
+    DELETE statements in that order (`C16_deletes_in_queue_order`) -> the committed rows under the ON DELETE clauses) -/
+
+/-- FULL statement for Pony's own schema: for every well-formed session and every sequence of `obj.delete()` calls, the
+    DELETE statements in death order are accepted under the ON DELETE clauses Pony declares -/
+def C16_delete_order_accepted_full : Prop :=
+  ∀ (sch : Schema) (s : Store) (dels : List ObjId), checkAgree sch s = true → checkNoDangling sch s = true →
+    (execDeletes sch (commit sch s) (deleteAllQ sch sch.classTable false dels ⟨s, []⟩).1.order).isSome = true
+
+/-- E1.r0 = Required(E0) (column) <-> E0.s0 = Optional(E1);  E0.r1 = Optional(E1) (column) <-> E1.s1 = Optional(E0, cascade_delete=True) -/
+def cycSchema : Schema :=
+  [{ a := ⟨1, false, true, false, true⟩, b := ⟨0, false, false, false, false⟩, sym := false },
+   { a := ⟨0, false, false, false, true⟩, b := ⟨1, false, false, true, false⟩, sym := false }]
+
+/-- a = E0() [object 0], b = E1(r0=a, s1=a) [object 1] -/
+def cycStore : Store where
+  n := 2
+  ent o := o
+  alive o := decide (o < 2)
+  ref o a := if o = 1 ∧ a = ⟨0, false⟩ then some 0 else if o = 0 ∧ a = ⟨0, true⟩ then some 1
+             else if o = 0 ∧ a = ⟨1, false⟩ then some 1 else if o = 1 ∧ a = ⟨1, true⟩ then some 0 else none
+  mem _ _ _ := false
+
+/-- known finding `pony-schema:DELETE-refused:reference-cycle-between-deleted-rows:...` (C15:
+    commit-failed:required-reference-inside-cascade-closure): `b.delete()` queues the cascade target `a` first, and
+    `DELETE a` is refused although `DELETE b` first would be accepted.  The engine replays this witness on the real code on
+    every run (corpus pony-schema-delete-cycle-known.json). -/
+theorem C16_delete_order_accepted_full_false : ¬ C16_delete_order_accepted_full := by
+  intro h
+  have := h cycSchema cycStore [1] (by decide) (by decide)
+  revert this
+  decide
+
+example : (deleteAllQ cycSchema cycSchema.classTable false [1] ⟨cycStore, []⟩).1.order = [0, 1] := by decide
+example : (execDeletes cycSchema (commit cycSchema cycStore) [1, 0]).isSome = true := by decide
+
+/-- FULL statement for a schema without ON DELETE clauses (plain immediate foreign keys) -/
+def C16_strict_delete_order_accepted_full : Prop :=
+  ∀ (sch : Schema) (s : Store) (dels : List ObjId), checkAgree sch s = true → checkNoDangling sch s = true →
+    (execDeletesStrict sch (commit sch s) (deleteAllQ sch sch.classTable false dels ⟨s, []⟩).1.order).isSome = true
+
+/-- B.a = Optional(A) (column) <-> A.bs = Set(B) -/
+def optSchema : Schema := [{ a := ⟨1, false, false, false, true⟩, b := ⟨0, true, false, false, false⟩, sym := false }]
+
+/-- a = A() [object 0], b = B(a=a) [object 1] -/
+def optStore : Store where
+  n := 2
+  ent o := o
+  alive o := decide (o < 2)
+  ref o a := if o = 1 ∧ a = ⟨0, false⟩ then some 0 else none
+  mem o a x := decide (o = 0 ∧ a = ⟨0, true⟩ ∧ x = 1)
+
+/-- known finding `strict-schema:DELETE-refused:delete-order-relies-on-ON-DELETE`: `a.delete(); b.delete()` queues a
+    before b (b's pending `UPDATE ... SET a = NULL` is cancelled by its own deletion); a schema without ON DELETE SET
+    NULL refuses `DELETE a`.  Replayed on the real code on every run (corpus strict-delete-order-known.json). -/
+theorem C16_strict_delete_order_accepted_full_false : ¬ C16_strict_delete_order_accepted_full := by
+  intro h
+  have := h optSchema optStore [0, 1] (by decide) (by decide)
+  revert this
+  decide
+
+/-- ... while Pony's own DDL (ON DELETE SET NULL on B.a) accepts the same order -/
+example : (execDeletes optSchema (commit optSchema optStore) (deleteAllQ optSchema optSchema.classTable false [0, 1] ⟨optStore, []⟩).1.order).isSome = true := by
+  decide
+
+end DeleteOrder
 
 end PonyVerif.Props.C16
